@@ -951,3 +951,98 @@ class MNAddFactors(Contract):
 
 
 register(MNAddFactors())
+
+
+# --------------------------------------------------------------------------------------------------- cluster graph / junction tree
+def clique(name):
+    return atom(name, "clique")
+
+
+def disjoint_labels(u, v):
+    from vf.pyvc.engine import label_members
+    x = fresh("x", Atom)
+    return z3.Not(z3.Exists([x], z3.And(label_members(u)[x], label_members(v)[x])))
+
+
+def ug_edge_added(g, old, u, v):
+    a, b = fresh("a", Atom), fresh("b", Atom)
+    return [z3.ForAll([a, b], g.fields["@E"][a, b] == z3.Or(old["@E"][a, b], z3.And(a == u, b == v), z3.And(a == v, b == u))),
+            z3.ForAll([a], g.fields["@nodes"][a] == z3.Or(old["@nodes"][a], a == u, a == v)), wf_graph(g)]
+
+
+class ClusterGraphAddEdge(Contract):
+    """ClusterGraph.add_edge(u, v) on clique labels: ValueError exactly when the two cliques share no variable (graph unchanged);
+    otherwise exactly the undirected edge u - v (and its endpoints) is added."""
+    file = "pgmpy/models/ClusterGraph.py"
+    qual = "ClusterGraph.add_edge"
+    raises_leave_state = True
+
+    def variants(self, ex):
+        for cls in ("ClusterGraph",):
+            g = new_graph(cls, "cg", directed=False, latents=False)
+            yield "any", {"self": g, "u": clique("u"), "v": clique("v")}, {}
+
+    def pre(self, ex, st, args):
+        return wf_graph(args["self"])
+
+    def snapshot(self, ex, st, args):
+        return graph_snapshot(args["self"])
+
+    def havoc(self, ex, st, args):
+        havoc_graph(args["self"], "cg", latents=False)
+
+    def raises(self, ex, st, args):
+        return {"ValueError": disjoint_labels(args["u"].z, args["v"].z)}
+
+    def on_raise(self, ex, st, args, old, exc):
+        return graph_unchanged(args["self"], old)
+
+    def post(self, ex, st, args, old, result):
+        e, n, w = ug_edge_added(args["self"], old, args["u"].z, args["v"].z)
+        return {"edges": e, "nodes": n, "wf": w}
+
+
+register(ClusterGraphAddEdge())
+
+
+class JunctionTreeAddEdge(Contract):
+    """JunctionTree.add_edge(u, v): the guard of the forest property.  ValueError exactly for u == v, for two nodes of the tree that are
+    already connected, or (from ClusterGraph.add_edge) for cliques without a common variable - the tree is unchanged then; otherwise
+    exactly the edge u - v is added, and it joins two different components (so no cycle is closed: a forest stays a forest - that last
+    step is the textbook fact, not proved here; the forest property over histories is checked by the bounded group history_JT)."""
+    file = "pgmpy/models/JunctionTree.py"
+    qual = "JunctionTree.add_edge"
+    propagates = ("ClusterGraph.add_edge",)
+
+    def variants(self, ex):
+        g = new_graph("JunctionTree", "jt", directed=False, latents=False)
+        yield "any", {"self": g, "u": clique("u"), "v": clique("v")}, {}
+
+    def pre(self, ex, st, args):
+        return wf_graph(args["self"])
+
+    def snapshot(self, ex, st, args):
+        return graph_snapshot(args["self"])
+
+    def havoc(self, ex, st, args):
+        havoc_graph(args["self"], "jt", latents=False)
+
+    def connected0(self, ex, args, old):
+        g, u, v = args["self"], args["u"].z, args["v"].z
+        return z3.And(old["@nodes"][u], old["@nodes"][v], ex.lib.theory(ex).path(old["@E"])(u, v))
+
+    def raises(self, ex, st, args):
+        u, v = args["u"].z, args["v"].z
+        old = graph_snapshot(args["self"])
+        return {"ValueError": z3.Or(u == v, self.connected0(ex, args, old), disjoint_labels(u, v))}
+
+    def on_raise(self, ex, st, args, old, exc):
+        return graph_unchanged(args["self"], old)
+
+    def post(self, ex, st, args, old, result):
+        e, n, w = ug_edge_added(args["self"], old, args["u"].z, args["v"].z)
+        return {"edges": e, "nodes": n, "wf": w, "joins-two-components": z3.Not(self.connected0(ex, args, old)),
+                "no-self-loop": args["u"].z != args["v"].z}
+
+
+register(JunctionTreeAddEdge())
